@@ -12,4 +12,4 @@ ASSUMPTIONS = ['reachability is computed by the checker from WBS.roots and Task.
 
 
 def streams(tier):
-    return hist_streams('C11', 'membership', 2400, 60000)
+    return hist_streams('C11', 'membership', 8000, 80000)
